@@ -22,7 +22,7 @@ ROWS = {
          "`rec_num itoa` + `sweep_itoa` (all 10^8 low-group values subsampled, every leading part 1..9999 and 1..1844)"),
  "C09": ("`Gen_Quote` (+`SpecOk`), `Trace_Num` kind `quote` (`IsQuotingOf`)",
          "`rt_quote`: heap source, 15 page-end gaps x 2 garbage fillings, canaries at 6n+35, Serialize"),
- "C10": ("`MC_SkipScan` (`Equiv`: all strings <= 4 over 11 symbols, viable prefixes <= 7; `ODEquiv` on every generated case); `Gen_OnDemand`, `Gen_OnDemandStr`",
+ "C10": ("`MC_SkipScan` (`Equiv`: all strings <= 4 over 11 symbols, viable prefixes <= 7; `ODEquiv` on every generated case); `Gen_OnDemand`, `Gen_OnDemandStr`, `Gen_RandOD` (simulation: trees grown by random insertions, a resolving and a missing path per node)",
          "`rt_ondemand c10`: GetOnDemand (heap / page-end / page-start), ParseOnDemand, AtPointer; SkipScan drift on 161k cases"),
  "C11": ("`MC_SkipScan` (`InBounds`); byte strings, tokens, mutants, string prefixes",
          "`rt_ondemand c11` on exact-size and guard-page buffers, 8 paths"),
